@@ -1,0 +1,80 @@
+//go:build verif
+
+package pem
+
+// Contracts for govc (contract-based deductive verification; see /verif/DESIGN.md).
+// This file holds only comments and is compiled only with -tags verif.
+
+// C07 safety sweep: any byte string is admitted as PEM input.
+
+// decodeCertificatePEM: one step of the certificate scanner. The rest it returns is strictly shorter than a non-empty
+// input (pem.Decode's remainder after a block, or nil), which is the termination argument of DecodePEMCertificates.
+//@ func decodeCertificatePEM
+//@   tags C07
+//@   modifies nothing
+//@   ensures [C07.pem.step.shrinks] len(crtb) > 0 ==> len(result1) < len(crtb)
+//@   ensures [C07.pem.step.len] 0 <= len(result1) && len(result1) <= len(crtb)
+//@   ensures [C07.pem.step.err] result2 != nil ==> result == nil
+
+//@ func DecodePEMCertificates
+//@   tags C07
+//@   modifies nothing
+//@   ensures [C07.pem.certs.err] result1 != nil ==> result == nil
+//@   ensures [C07.pem.certs.some] result1 == nil ==> len(result) >= 1
+//@   ensures [C07.pem.certs.nonnil] result1 == nil ==> (forall i :: 0 <= i && i < len(result) ==> result[i] != nil)
+//@   loop 0 invariant fresh(certs)
+//@   loop 0 invariant forall i :: 0 <= i && i < len(certs) ==> certs[i] != nil
+//@   loop 0 invariant len(crtb) >= 0
+//@   loop 0 decreases len(crtb)
+
+//@ func DecodePEMCertificatesChain
+//@   tags C07
+//@   modifies nothing
+//@   ensures [C07.pem.chain.err] result1 != nil ==> result == nil
+//@   loop 0 invariant 0 <= i
+//@   loop 0 decreases len(certs) - i
+
+// DecodePEMPrivateKey: the assertion key.(crypto.Signer) on the result of x509.ParsePKCS8PrivateKey is NOT discharged
+// (obligation assert#0): the documented result set includes *ecdh.PrivateKey (X25519), which has no Sign method.
+//@ func DecodePEMPrivateKey
+//@   tags C07
+//@   modifies nothing
+// (No "error ==> nil signer" postcondition: for EC / RSA blocks the typed-nil pointer returned by the x509 parser on
+//  failure is converted to a non-nil crypto.Signer interface value; callers have to look at the error first.)
+//@   replay template pemprivatekey
+//@   replay val isecdh = typeis(call_ParsePKCS8PrivateKey_0_key, "*crypto/ecdh.PrivateKey")
+//@   replay val isrsa = typeis(call_ParsePKCS8PrivateKey_0_key, "*crypto/rsa.PrivateKey")
+//@   replay val isecdsa = typeis(call_ParsePKCS8PrivateKey_0_key, "*crypto/ecdsa.PrivateKey")
+//@   replay val ised25519 = typeis(call_ParsePKCS8PrivateKey_0_key, "crypto/ed25519.PrivateKey")
+
+//@ func EncodePrivateKey
+//@   tags C07
+//@   modifies nothing
+//@   ensures [C07.pem.enckey.err] result1 != nil ==> result == nil
+//@   ensures [C07.pem.enckey.fresh] result1 == nil ==> fresh(result)
+
+//@ func EncodeX509
+//@   tags C07
+//@   requires cert != nil
+//@   modifies nothing
+
+//@ func EncodeX509Chain
+//@   tags C07
+//@   modifies nothing
+//@   ensures [C07.pem.encchain.err] result1 != nil ==> result == nil
+//@   ensures [C07.pem.encchain.empty] len(certs) == 0 ==> result1 != nil
+//@   loop 0 invariant -1 <= rangeindex && rangeindex < len(certs) && certPEM != nil
+//@   loop 0 decreases len(certs) - rangeindex
+
+// PublicKeysEqual: the keys must be well-formed key objects (as produced by the x509 / jwk parsers or a key generator):
+// crypto/rsa and crypto/ecdsa dereference the key pointers and their big.Int components without a nil check, so a
+// typed-nil *rsa.PublicKey / *ecdsa.PublicKey or a zero-valued key struct makes the standard library's Equal panic.
+//@ func PublicKeysEqual
+//@   tags C07
+//@   requires typeis(a, "*crypto/rsa.PublicKey") ==> (unbox(a, "*crypto/rsa.PublicKey") != nil && unbox(a, "*crypto/rsa.PublicKey").N != nil)
+//@   requires typeis(b, "*crypto/rsa.PublicKey") ==> (unbox(b, "*crypto/rsa.PublicKey") != nil && unbox(b, "*crypto/rsa.PublicKey").N != nil)
+//@   requires typeis(a, "*crypto/ecdsa.PublicKey") ==> (unbox(a, "*crypto/ecdsa.PublicKey") != nil && unbox(a, "*crypto/ecdsa.PublicKey").X != nil && unbox(a, "*crypto/ecdsa.PublicKey").Y != nil)
+//@   requires typeis(b, "*crypto/ecdsa.PublicKey") ==> (unbox(b, "*crypto/ecdsa.PublicKey") != nil && unbox(b, "*crypto/ecdsa.PublicKey").X != nil && unbox(b, "*crypto/ecdsa.PublicKey").Y != nil)
+//@   modifies nothing
+//@   ensures [C07.pem.equal.unknown] (!typeis(a, "*crypto/rsa.PublicKey") && !typeis(a, "*crypto/ecdsa.PublicKey") && !typeis(a, "crypto/ed25519.PublicKey")) ==> (!result && result1 != nil)
+//@   ensures [C07.pem.equal.known] (typeis(a, "*crypto/rsa.PublicKey") || typeis(a, "*crypto/ecdsa.PublicKey") || typeis(a, "crypto/ed25519.PublicKey")) ==> result1 == nil
